@@ -17,9 +17,12 @@ PREFIXES = [b"", b"\x10", b"\x10\x01", b"\x50"]
 
 class GhostCoding:
 
-    def __init__(self, name, prefix, echo_request_prefix=False, outcomes=("value", "error", "mismatch")):
+    def __init__(self, name, prefix, echo_request_prefix=False, outcomes=("value", "error", "mismatch"),
+                 short_name=None):
         self.outcomes = list(outcomes)
-        self.short_name = name
+        self.uid = name
+        # (requests, positive and negative responses live in separate name spaces: equal short names are legal)
+        self.short_name = short_name or name
         self.prefix = prefix
         self.echo = echo_request_prefix
         self.outcome = None
@@ -37,7 +40,7 @@ class GhostCoding:
 
     def outcome_for(self, message):
         if self.outcome is None:
-            self.outcome = H.pick(f"outcome_{self.short_name}", self.outcomes)
+            self.outcome = H.pick(f"outcome_{self.uid}", self.outcomes)
             if self.outcome == "value":
                 H.assume(self.applicable(message))  # nothing decodes a message that lacks its constant prefix
         return self.outcome
@@ -45,7 +48,7 @@ class GhostCoding:
     def decode(self, message):
         self.outcome_for(message)
         if self.outcome == "value":
-            return {"decoded_by": self.short_name}
+            return {"decoded_by": self.uid}
         if self.outcome == "mismatch":
             raise DecodeMismatch("ghost mismatch")
         raise DecodeError("ghost decode error")
@@ -59,21 +62,26 @@ class GhostRaw:
         self.global_negative_responses = []
 
 
-def mk_service(i, with_neg, small=False):
+def mk_service(i, with_neg, small=False, shared_names=False):
     s = DiagService.__new__(DiagService)
     s.short_name = f"svc{i}"
+    shared = f"object{i}" if shared_names else None
     s._request = GhostCoding(f"rq{i}", H.pick(f"rq{i}_prefix", PREFIXES[:3] if small else PREFIXES),
-                             outcomes=("value", "error"))
+                             outcomes=("value", "error"), short_name=shared)
     s._positive_responses = [GhostCoding(f"pr{i}", H.pick(f"pr{i}_prefix", [b"", b"\x50", b"\x10"] if small
-                                                          else PREFIXES))]
-    s._negative_responses = [GhostCoding(f"nr{i}", H.pick(f"nr{i}_prefix", [b"\x7f", b"\x7f\x10"]))] if with_neg else []
+                                                          else PREFIXES), short_name=shared)]
+    s._negative_responses = [GhostCoding(f"nr{i}", H.pick(f"nr{i}_prefix", [b"\x7f", b"\x7f\x10"]),
+                                         short_name=shared)] if with_neg else []
     return s
 
 
 def _fam(tier, seed):
-    out = [{"nsvc": 1, "with_neg": True, "gnr": True}, {"nsvc": 2, "with_neg": False, "gnr": False}]
+    out = [{"nsvc": 1, "with_neg": True, "gnr": True, "shared_names": False},
+           {"nsvc": 2, "with_neg": False, "gnr": False, "shared_names": False},
+           {"nsvc": 1, "with_neg": True, "gnr": False, "shared_names": True}]
     if tier == "thorough":
-        out += [{"nsvc": 2, "with_neg": False, "gnr": True}, {"nsvc": 2, "with_neg": True, "gnr": True}]
+        out += [{"nsvc": 2, "with_neg": False, "gnr": True, "shared_names": False},
+                {"nsvc": 2, "with_neg": True, "gnr": True, "shared_names": True}]
     return out
 
 
@@ -88,13 +96,13 @@ def _prefix_of(p, message):
          functions=[DiagLayer._prefix_tree, DiagLayer._extend_prefix_tree, DiagLayer._find_services_for_uds,
                     DiagLayer._decode, DiagLayer.decode, DiagService.decode_message],
          covers=["attributed", "nothing"], limits={"max_paths": 200000, "task_timeout": 1500})
-def message_attribution(nsvc, with_neg, gnr):
+def message_attribution(nsvc, with_neg, gnr, shared_names):
     """decode(M) reports exactly the services that have a coding object (or an applicable global negative response)
     whose constant prefix and parameters match M, and raises DecodeError only if there is none"""
     layer = DiagLayer.__new__(DiagLayer)
     raw = GhostRaw()
     layer.diag_layer_raw = raw
-    raw.services = [mk_service(i, with_neg, nsvc > 1) for i in range(nsvc)]
+    raw.services = [mk_service(i, with_neg, nsvc > 1, shared_names) for i in range(nsvc)]
     if gnr:
         raw.global_negative_responses = [GhostCoding("gnr", b"\x7f", echo_request_prefix=True)]
     message = H.bytes("message", 0, 2)
@@ -136,3 +144,39 @@ def message_attribution(nsvc, with_neg, gnr):
             sorted([s.short_name for (s, c) in got]) == sorted([s.short_name for (s, c) in expected]))
     H.check("C06:each-report-names-the-matching-coding-object",
             all([any([(s is es) and (c is ec) for (es, ec) in expected]) for (s, c) in got]))
+
+
+# ---------------------------------------------------------------------------------------------------------------
+# service groups: ServiceBinner files every service under the first byte of its request
+from contracts import build as B  # noqa: E402
+from odxtools.servicebinner import ServiceBinner  # noqa: E402
+
+# leading coded constants of the request: (bit length, byte position, bit position)
+SID_SHAPES = {
+    "u8": [(8, 0, None)],
+    "u16": [(16, 0, None)],
+    "u32": [(32, 0, None)],
+    "u8+u8": [(8, 0, None), (8, 1, None)],
+    "nibbles": [(4, 0, 4), (4, 0, 0)],
+    "u8+u16": [(8, 0, None), (16, 1, None)],
+}
+
+
+@harness(props=["C06"], strength="E", family=lambda t, s: [{"shape": k} for k in SID_SHAPES],
+         functions=[ServiceBinner.__init__, ServiceBinner._ServiceBinner__extract_sid, ServiceBinner.__getitem__],
+         covers=["filed"], assumes=["A-bitstruct"])
+def service_groups_by_first_request_byte(shape):
+    """the service-group view files a service under the first byte of its (encoded) request"""
+    consts = []
+    for i, (bits, byte_pos, bit_pos) in enumerate(SID_SHAPES[shape]):
+        v = H.int(f"const{i}", 0, (1 << bits) - 1)
+        consts.append(B.coded_const(f"c{i}", v, byte_pos, bits, bit_position=bit_pos))
+    svc = DiagService.__new__(DiagService)
+    svc.short_name = "svc"
+    svc._request = B.request(consts + [B.value_param("arg", B.dop("u8", 8))])
+    binner = ServiceBinner([svc])
+    first = bytes(svc._request.encode(arg=0))[0]
+    sids = list(binner)
+    H.cover("filed")
+    H.check("C06:service-is-filed-under-exactly-one-group", len(sids) == 1)
+    H.check("C06:service-is-filed-under-the-first-byte-of-its-request", H.And(len(sids) == 1, sids[0] == first))
